@@ -341,7 +341,11 @@ func (e *stubEnv) external(r *engine.Run, fn *ssa.Function, args []engine.Value,
 				items = append(items, s.Elems[i])
 			}
 		}
-		return newError(r, "errorf", items...), true
+		er := newError(r, "errorf", items...)
+		if v, ok := nativeSprint("fmt.Sprintf", args); ok {
+			er.V.(*engine.Opaque).Attrs = map[string]engine.Value{"msg": v}
+		}
+		return er, true
 	case "errors.New":
 		return newError(r, "errors.New", args[0]), true
 	case "fmt.Sprintf", "fmt.Sprint", "fmt.Sprintln":
@@ -468,6 +472,14 @@ func (e *stubEnv) external(r *engine.Run, fn *ssa.Function, args []engine.Value,
 
 func (e *stubEnv) invoke(r *engine.Run, recv engine.Iface, method *types.Func, args []engine.Value) (engine.Value, bool) {
 	if recv.T == errDynType && method.Name() == "Error" {
+		if o, ok := recv.V.(*engine.Opaque); ok && o.Attrs != nil {
+			if m, ok := o.Attrs["msg"]; ok {
+				return m, true
+			}
+		}
+		if o, ok := recv.V.(*engine.Opaque); ok && o.Kind == "errors.New" && len(o.Items) == 1 {
+			return o.Items[0], true
+		}
 		return engine.Str{Atom: r.Fresh(engine.AtomSort, "errmsg")}, true
 	}
 	return nil, false
